@@ -215,14 +215,15 @@ class C04(Prop):
             "samples in one directory, unequal lengths, 1..4 elements, distractor / hidden / directory entries, shuffled "
             "listing, shuffled task completion (targeted: EVERY completion order of directories of up to 5 files - thorough, "
             "x 5 time zones; up to 3 files - quick), 5 time zones with stamps around DST transitions, month/day written with "
-            "one digit, a few stamps time.strptime rejects (import raises: judged against the model only), explicit and "
+            "one digit, a few stamps outside the valid ones (not judged, agreement with the model counted), explicit and "
             "auto-detected option; 40% of the cases "
             "with an explicit option object first import one or two primer directories of the same layout - other line "
             "count / element set / helper columns, element or helper columns empty in every line, or the real directory "
             "itself - through the SAME option instance, and the import that follows is compared with the specification "
             "of the real directory alone) plus batches of "
-            "file names on which the model's matchers, sort keys, filter and sort are compared with the real option.regex / "
-            "option.sortkey (TOFWERK: under 5 TZ settings) / option.filter / option.sort of the four options; non-trivial = at least two line files or a distractor; distinct by case hash")
+            "file names on which the model's matchers, filter, sort and the order its sort keys induce (which names have a "
+            "key, how neighbouring keys compare) are compared with the real option.regex / option.filter / option.sort / "
+            "option.sortkey (TOFWERK: under 5 TZ settings) of the four options; non-trivial = at least two line files or a distractor; distinct by case hash")
     trusted = [
         "np.genfromtxt parses a written table to the values float(token) (NaN for unparsable/empty tokens) and names the "
         "fields as the writer expects (spaces -> '_', quotes deleted for TOFWERK, empty -> f0); np.stack/np.delete/"
@@ -239,8 +240,10 @@ class C04(Prop):
         "every line has at least two samples; Nu names are exactly line_<digits>.csv (nothing after .csv)",
         "acquisition order of an LDR directory that holds several sample names: grouped by lower-cased sample name (string "
         "order), then numeric line index - the order the code documents; the property text only names the line index",
-        "TOFWERK: a directory with a stamp that time.strptime rejects (import raises ValueError) or with a leap-second stamp "
-        "(seconds 60/61) is compared with the model only, not with the acquisition-order specification",
+        "TOFWERK stamps have the form YYYY.MM.DD-HHhMMmSSs (every field zero-padded) and are valid dates and times of day: a "
+        "directory with a stamp time.strptime rejects (the import raises ValueError), with a leap-second stamp (seconds 60/61) "
+        "or with a one-digit month / day (both accepted by time.strptime) is not judged; whether pewlib does what the model "
+        "says there is only counted (feature stamp-out-of-domain:model-agrees / model-differs)",
         "an empty selection (no accepted file) is not compared (the property does not say what happens)",
         "histories: the result of importing a directory does not depend on earlier imports made with the same option "
         "object; what the earlier (primer) imports return or raise is not judged",
@@ -428,33 +431,70 @@ class C04(Prop):
             feats = {f for f in feats if not f.startswith(("primer-", "two-primers"))}
         empty = not lines
         nontrivial = n >= 2 or any(e["role"] != "line" for e in entries)
-        if not rep["keys_defined"]:
-            feats.add("import-raises-on-stamp")
-        if not (rep["keys_defined"] and rep["valid_stamps"]):
-            # a stamp that is no valid date / a leap second: the property does not order such files; pewlib is still
-            # compared with the model (which says ValueError exactly when time.strptime rejects a stamp)
-            return outcome(impl, model, spec, spec_ok=True, undetermined=empty, hyp=False, features=feats if nontrivial else [])
+        if not (rep["keys_defined"] and rep["valid_stamps"] and rep["strict_stamps"]):
+            # a stamp that is no valid date / a leap second / a month or day written with one digit (not what the instrument
+            # writes): the property does not say what the import does with such a directory (time.strptime rejects the
+            # first and accepts the others; another parser, or the stamp text as key, may differ), so the case is not judged; whether pewlib does what the model says (ValueError exactly when time.strptime rejects a
+            # stamp) is recorded as a feature only
+            feats.add("stamp-out-of-domain:" + ("model-agrees" if core.canon(impl) == core.canon(model) else "model-differs"))
+            return outcome(impl, model, spec, undetermined=True, hyp=False, features=feats if nontrivial else [])
         return outcome(impl, model, spec, undetermined=empty, hyp=rep["hyp"], features=feats if nontrivial else [])
 
     def eval_names(self, case, ctx):
-        """the model's matchers, keys, filter and sort against the real option objects, name by name and on the batch"""
+        """the model's matchers, filter, sort and the ORDER its sort keys induce against the real option objects.
+        The value of a sort key is not observable through `load` (a rewrite may return a datetime, a tuple, another
+        epoch): only which names a key exists for, how two keys compare, and what filter / sort return are compared."""
         import pewlib.io.csv as pcsv
 
-        names = case["names"]
-        rep = ctx.driver.call("c04.names", names=names)["model"]
+        allnames = case["names"]
+        flags = ctx.driver.call("c04.names", names=allnames)["model"]
+        # names the TOFWERK pattern accepts but whose stamp is no valid date and time of day (or a leap second) are outside
+        # the property: what sortkey does with them (time.strptime: ValueError / accepted) is not compared
+        # likewise names the Nu pattern accepts that are not line_<digits>.csv in full (text after .csv: "the line index"
+        # is not defined for them)
+        ok = [(r["tofwerk"] is None or (r["valid_stamp"] and r["strict_stamp"])) and (r["nu"] is None or r["nufull"]) for r in flags]
+        names = [nm for nm, k in zip(allnames, ok) if k]
+        rep = [r for r, k in zip(flags, ok) if k]
         srt = ctx.driver.call("c04.sort", names=names)["model"]
         opts = {"nu": pcsv.NuOption(), "ldr": pcsv.ThermoLDROption(), "tofwerk": pcsv.TofwerkOption(), "generic": pcsv.GenericOption()}
         base = pathlib.Path("/nonexistent-c04-dir")
+        byname = dict(zip(names, rep))
         impl, model, feats = [], [], set()
+        if len(names) < len(allnames):
+            feats.add("names-out-of-domain")
 
-        def real_key(o, nm):
-            try:
-                k = o.sortkey(base / nm)
-            except ValueError:
-                return {"raises": "ValueError"}
-            if isinstance(k, tuple):
-                return [k[0], int(k[1])]
-            return int(k)
+        def model_key(v, nm):
+            r = byname[nm]
+            if v == "nu":
+                return [r["numkey"]]
+            if v == "ldr":
+                return r["ldrkey"]  # code points of the lower-cased sample name, -1, index (compared as a list = as the tuple)
+            if v == "tofwerk":
+                return [r["timegm"]] if r["strptime_ok"] else None
+            return [ord(ch) for ch in nm]
+
+        def key_relations(v, o, kept):
+            """(names without a key, [relation of neighbours in the model's key order]) on the real and the model side"""
+            real, undef_i, undef_m = {}, [], []
+            for nm in kept:
+                try:
+                    real[nm] = o.sortkey(base / nm)
+                except ValueError:
+                    undef_i.append(nm)
+                if model_key(v, nm) is None:
+                    undef_m.append(nm)
+            both = sorted((nm for nm in kept if nm in real and model_key(v, nm) is not None), key=lambda nm: (model_key(v, nm), nm))
+            rel_i, rel_m = [], []
+            for a, b in zip(both, both[1:]):
+                ka, kb = model_key(v, a), model_key(v, b)
+                if ka == kb and a != b:
+                    continue  # two files with one index / stamp: the property does not order them
+                rel_m.append("<" if ka < kb else "=" if ka == kb else ">")
+                try:
+                    rel_i.append("<" if real[a] < real[b] else "=" if real[a] == real[b] else ">")
+                except TypeError:
+                    rel_i.append("incomparable")
+            return (sorted(undef_i), rel_i), (sorted(undef_m), rel_m)
 
         old_tz = os.environ.get("TZ")
         try:
@@ -472,41 +512,35 @@ class C04(Prop):
                         i["group"], m["group"] = mt.group(1).lower(), (r[v] or "").lower()
                 i["hidden"], m["hidden"] = nm.startswith("."), r["hidden"]
                 i["stem"], m["stem"] = pathlib.PurePosixPath(nm).stem, r["stem"]
-                if i["nu"]:
-                    i["nukey"], m["nukey"] = real_key(opts["nu"], nm), r["numkey"]
-                # the LDR key of every name (also of names its pattern rejects: the fallback branch)
-                i["ldrkey"] = real_key(opts["ldr"], nm)
-                m["ldrkey"] = ([r["ldrparts"]["sample"], r["ldrparts"]["index"]] if r["ldrparts"] is not None else ["", r["numkey"]])
-                # the same key in the encoding the model sorts with: code points, -1, index
-                if isinstance(i["ldrkey"], list):
-                    i["ldrkey_encoded"], m["ldrkey_encoded"] = [ord(ch) for ch in i["ldrkey"][0]] + [-1, i["ldrkey"][1]], r["ldrkey"]
-                    feats.add("ldr-key:" + ("indexed" if r["ldrparts"] is not None else "fallback"))
-                if i["tofwerk"]:
-                    # the real TofwerkOption.sortkey under every zone of the generator: one value, the model's
-                    want = r["timegm"] if r["strptime_ok"] else {"raises": "ValueError"}
-                    i["tofwerk_key"], m["tofwerk_key"] = {}, {}
-                    for tz in gen_csvdir.ZONES:
-                        os.environ["TZ"] = tz
-                        time.tzset()
-                        i["tofwerk_key"][tz], m["tofwerk_key"][tz] = real_key(opts["tofwerk"], nm), want
-                    feats.add("stamp" if r["strptime_ok"] else "stamp-rejected")
-                    if r["strptime_ok"] and not r["valid_stamp"]:
-                        feats.add("stamp-leap-second")
+                if r["tofwerk"] is not None:
+                    feats.add("stamp")
+                if r["ldrparts"] is not None:
+                    feats.add("ldr-sample-index")
                 impl.append(i)
                 model.append(m)
-            # option.filter / option.sort on the whole batch
+            # option.filter / option.sort / the order of option.sortkey on the whole batch
             paths = [base / nm for nm in names]
             bi, bm = {"name": "<batch>"}, {"name": "<batch>"}
             for v, o in opts.items():
-                kept = o.filter(paths)
-                bi[v + ".filter"], bm[v + ".filter"] = [q.name for q in kept], srt[v]["filter"]
                 try:
-                    bi[v + ".sort"] = [q.name for q in o.sort(kept)]
-                except ValueError:
-                    bi[v + ".sort"] = {"raises": "ValueError"}
-                bm[v + ".sort"] = srt[v]["sort"]
-                if len(kept) >= 2 and isinstance(bi[v + ".sort"], list) and bi[v + ".sort"] != bi[v + ".filter"]:
-                    feats.add("sort-reorders:" + v)
+                    kept = o.filter(paths)
+                    bi[v + ".filter"], bm[v + ".filter"] = [q.name for q in kept], srt[v]["filter"]
+                    keys = {q.name: model_key(v, q.name) for q in kept}
+                    if len({core.canon(k) for k in keys.values()}) == len(keys):  # no two files with one index / stamp
+                        try:
+                            bi[v + ".sort"] = [q.name for q in o.sort(kept)]
+                        except ValueError:
+                            bi[v + ".sort"] = {"raises": "ValueError"}
+                        bm[v + ".sort"] = srt[v]["sort"]
+                    if len(kept) >= 2 and isinstance(bi.get(v + ".sort"), list) and bi[v + ".sort"] != bi[v + ".filter"]:
+                        feats.add("sort-reorders:" + v)
+                    # the real keys are taken under every zone of the generator for TOFWERK
+                    for tz in (gen_csvdir.ZONES if v == "tofwerk" else ["UTC"]):
+                        os.environ["TZ"] = tz
+                        time.tzset()
+                        bi[f"{v}.keys@{tz}"], bm[f"{v}.keys@{tz}"] = key_relations(v, o, [q.name for q in kept])
+                except AttributeError:  # an option without filter / sort / sortkey: not an observation point of the property
+                    feats.add("option-api-missing")
             impl.append(bi)
             model.append(bm)
         finally:
